@@ -418,6 +418,16 @@ pub fn transcript(g: &[u8]) -> (Vec<u8>, Vec<String>, bool, Vec<String>) {
     (t.out, t.classes, t.nontrivial, t.log)
 }
 
+const PROTO_MAGIC: u32 = 0x5339_4D32;
+
+fn log_hash(log: &[String]) -> u64 {
+    let mut k = Key::new();
+    for l in log {
+        k.s(l);
+    }
+    k.done()
+}
+
 // ------------------------------------------------------------------------------------------ child process protocol
 pub fn serve() {
     crate::runner::silence_panics();
@@ -435,7 +445,11 @@ pub fn serve() {
         if i.read_exact(&mut g).is_err() {
             return;
         }
-        let (tr, _, _, _) = transcript(&g);
+        let (tr, _, _, log) = transcript(&g);
+        // fingerprint of the decoded program: lets the parent tell "the two harness binaries decode this genome
+        // differently" (stale build, infrastructure) from "the library behaves differently" (violation)
+        let _ = o.write_all(&PROTO_MAGIC.to_le_bytes());
+        let _ = o.write_all(&log_hash(&log).to_le_bytes());
         let _ = o.write_all(&(tr.len() as u32).to_le_bytes());
         let _ = o.write_all(&tr);
         let _ = o.flush();
@@ -484,14 +498,30 @@ fn ask_child(g: &[u8]) -> Result<Option<Vec<u8>>, String> {
             peer.tx.write_all(&(g.len() as u32).to_le_bytes())?;
             peer.tx.write_all(g)?;
             peer.tx.flush()?;
+            let mut mg = [0u8; 4];
+            peer.rx.read_exact(&mut mg)?;
+            if u32::from_le_bytes(mg) != PROTO_MAGIC {
+                return Err(std::io::Error::new(std::io::ErrorKind::InvalidData, "protocol"));
+            }
+            let mut h = [0u8; 8];
+            peer.rx.read_exact(&mut h)?;
             let mut l = [0u8; 4];
             peer.rx.read_exact(&mut l)?;
             let mut t = vec![0u8; u32::from_le_bytes(l) as usize];
             peer.rx.read_exact(&mut t)?;
-            Ok(t)
+            let mut out = h.to_vec();
+            out.extend_from_slice(&t);
+            Ok(out)
         })();
         match ok {
             Ok(t) => Ok(Some(t)),
+            Err(e) if e.kind() == std::io::ErrorKind::InvalidData => {
+                if let Some(mut old) = p.take() {
+                    let _ = old.child.kill();
+                    let _ = old.child.wait();
+                }
+                Err("the dbg-profile binary speaks another protocol version (stale build: run /verif/run.sh build)".to_string())
+            }
             Err(_) => {
                 // the child died (abort / stack overflow); restart for the next case
                 if let Some(mut old) = p.take() {
@@ -539,7 +569,14 @@ pub fn check(g: &[u8], ctx: &Ctx) -> Result<Info, Failure> {
         return Ok(info);
     }
     let remote = match ask_child(g) {
-        Ok(Some(t)) => t,
+        Ok(Some(t)) => {
+            let mut h = [0u8; 8];
+            h.copy_from_slice(&t[..8]);
+            if u64::from_le_bytes(h) != log_hash(&log) {
+                fail!("harness|dbg-binary-decodes-differently", "the dbg-profile harness binary decodes this genome into a different program than the release binary: the two binaries were not built from the same harness sources (rebuild with /verif/run.sh build)");
+            }
+            t[8..].to_vec()
+        }
         Ok(None) => fail!("profile|dbg-child-died", "the dbg-profile process died on this program while the release build survived; program: {:?}", log),
         Err(e) => fail!("harness|no-dbg-child", "cannot talk to the dbg-profile child: {}", e),
     };
